@@ -936,11 +936,11 @@ func verifWireRawEnvelope(in *rawEnvelope) (out *rawEnvelope, err error) { panic
 //@   requires len(sep) == 1 && !strcontains(a, sep) && !strcontains(mid, sep) && !strcontains(b, sep)
 //@   ensures !strcontains(a + mid + b, sep)
 //@ func verifBefore
-//@   trusted ghost function naming strbefore(s, sep)
+//@   props C01 C02
 //@   modifies nothing
 //@   ensures result == strbefore(s, sep)
 //@ func verifAfter
-//@   trusted ghost function naming strafter(s, sep)
+//@   props C01 C02
 //@   modifies nothing
 //@   ensures result == strafter(s, sep)
 //@ lemma lemmaBeforeClean
